@@ -10,13 +10,13 @@ Q = A(TX, 'quantity')
 
 
 def check(ctx):
-    s1_ownership(ctx)
-    s2_net_delta(ctx)
-    s3_presence(ctx)
-    s4_report(ctx)
-    s5_valuation(ctx)
-    mark_loop(ctx, 'C02.S5')
-    refused_fill(ctx, 'C02.S2')
+    ctx.sub(s1_ownership)
+    ctx.sub(s2_net_delta)
+    ctx.sub(s3_presence)
+    ctx.sub(s4_report)
+    ctx.sub(s5_valuation)
+    ctx.sub(mark_loop, 'C02.S5')
+    ctx.sub(refused_fill, 'C02.S2')
 
 
 def s1_ownership(ctx):
@@ -152,55 +152,44 @@ def s3_presence(ctx):
 def s4_report(ctx):
     qn = 'Portfolio.portfolio_to_dict'
     fn = ctx.fn(qn)
-    sx = SymEx(ctx.M, policy=default_policy)
+
+    def no_props(caller, callee, depth):
+        return default_policy(caller, callee, depth) and not callee.is_property
+    sx = SymEx(ctx.M, policy=no_props)
     ps = sx.run(fn)
     ctx.paths_explored += len(ps)
     nps = normal(ps)
     if not ctx.require(len(nps) == 1 if len(nps) == 1 else None, 'C02.S4', 'portfolio_to_dict has one normal path', fn.site(), len(nps)):
         return
-    p = nps[0]
-    loops = [e for e in p.events if e.kind == 'loop']
-    if not ctx.require(len(loops) == 1 if len(loops) == 1 else None, 'C02.S4', 'portfolio_to_dict iterates the positions once', fn.site()):
+    v = nps[0].value
+    if not (v is not None and v[0] == 'comp' and v[1] == 'dict' and len(v[3]) == 1):
+        ctx.undecided('C02.S4', 'the holdings report is one row per position (loop or comprehension)', fn.site(), fmt(v)[:160] if v else None)
         return
-    lp = loops[0]
-    ctx.require(fmt(lp.iter) in ('self.pos_handler.positions.items()', 'self.pos_handler.positions', 'self.pos_handler.positions.values()'),
-                'C02.S4', 'the holdings report covers every open position', lp.site, fmt(lp.iter), key='C02.S4|iter')
-    table = {'quantity': 'net_quantity', 'market_value': 'market_value', 'unrealised_pnl': 'unrealised_pnl', 'realised_pnl': 'realised_pnl',
-             'total_pnl': 'total_pnl'}
-    nb = 0
-    for b in lp.paths:
-        if b.outcome != 'fall':
-            ctx.violation('C02.S4', 'no position is skipped in the report', lp.site, b.describe(), key='C02.S4|skip')
+    tg, it, ifs = v[3][0]
+    ctx.require(fmt(it) in ('self.pos_handler.positions.items()',) and len(tg) == 2, 'C02.S4', 'the holdings report covers every open position', fn.site(), fmt(it), key='C02.S4|iter')
+    ctx.require(not ifs, 'C02.S4', 'no position is skipped in the report', fn.site(), [fmt(c) for c in ifs], key='C02.S4|skip')
+    if len(tg) != 2:
+        return
+    key, row = v[2][1]
+    pos = tg[1]
+    ctx.require(key == tg[0], 'C02.S4', 'rows are keyed by the asset', fn.site(), fmt(key), key='C02.S4|key')
+    if row[0] != 'dict':
+        ctx.undecided('C02.S4', 'report row is a dict literal', fn.site(), fmt(row)[:120])
+        return
+    d = {k[1]: x for k, x in row[1] if k is not None and k[0] == 'str'}
+    table = {'quantity': 'net_quantity', 'market_value': 'market_value', 'unrealised_pnl': 'unrealised_pnl', 'realised_pnl': 'realised_pnl', 'total_pnl': 'total_pnl'}
+    spelled = {'net_quantity': T.t_sub(('attr', pos, 'buy_quantity'), ('attr', pos, 'sell_quantity'))}
+    spelled['market_value'] = T.t_mul(('attr', pos, 'current_price'), spelled['net_quantity'])
+    for k, prop in table.items():
+        if k not in d:
+            ctx.violation('C02.S4', "report row has key '%s'" % k, fn.site(), sorted(d), key='C02.S4|key|%s' % k)
             continue
-        ws = [w for w in b.flat_events() if w.kind == 'write' and w.d.get('local') and w.loc[0] == 'sub']
-        if not ctx.require(len(ws) == 1, 'C02.S4', 'one report row per position', lp.site, len(ws), key='C02.S4|rows'):
-            continue
-        w = ws[0]
-        pos = w.loc[2]
-        row = w.value
-        if row[0] != 'dict':
-            ctx.undecided('C02.S4', 'report row is a dict literal', w.site, fmt(row))
-            continue
-        d = {k[1]: v for k, v in row[1] if k is not None and k[0] == 'str'}
-        # the position object of this iteration
-        pobj = ('sub', ('elem', lp.iter, lp.id), num(1)) if fmt(lp.iter).endswith('.items()') else None
-        if pobj is None:
-            ctx.undecided('C02.S4', 'loop target shape', lp.site, fmt(lp.iter))
-            continue
-        nb += 1
-        for key, prop in table.items():
-            if key not in d:
-                ctx.violation('C02.S4', "report row has key '%s'" % key, w.site, sorted(d), key='C02.S4|key|%s' % key)
-                continue
-            exp = eval_property(sx, fn, 'Position', prop, pobj, State(dict(b.env), dict(b.heap), b.conds, (), dict(b.state.decided)))
-            exp = [v for s, v in exp if s.exc is None]
-            ok = len(exp) >= 1 and any(T.teq(d[key], v) for v in exp)
-            if key in ('quantity', 'market_value'):
-                ctx.require(ok, 'C02.S4', "report '%s' is the position's %s" % (key, prop), w.site, 'reported %s' % fmt(d[key])[:200],
-                            key='C02.S4|value|%s' % key)
-            else:
-                ctx.require(ok if ok else None, 'C02.S4', "report '%s' is the position's %s" % (key, prop), w.site, 'reported %s' % fmt(d[key])[:200])
-    ctx.floor('C02.S4', 'report rows checked', nb, 1)
+        got = d[k]
+        ok = got == ('attr', pos, prop) or (got[0] == 'call' and got[1] == ('fn', 'Position.' + prop)) or (prop in spelled and T.teq(got, spelled[prop]))
+        if not ok and prop == 'market_value':
+            ok = T.teq(got, T.t_mul(('attr', pos, 'current_price'), ('attr', pos, 'net_quantity')))
+        ctx.require(ok, 'C02.S4', "report '%s' is the position's %s" % (k, prop), fn.site(), 'reported %s' % fmt(got)[:160], key='C02.S4|value|%s' % k)
+    ctx.sample({'rule': 'C02.S4', 'row': {k: fmt(x)[:60] for k, x in d.items()}})
 
 
 def s5_valuation(ctx):
@@ -265,7 +254,7 @@ def s5_valuation(ctx):
             ctx.require(not cs, 'C02.S5', 'a mark for an asset that is not held is ignored', ctx.fn(qn).site())
             continue
         ok = len(cs) == 1 and cs[0].args.get('market_price') == V('current_price') and \
-            cs[0].d.get('recv') == ('sub', A(A('self', 'pos_handler'), 'positions'), V('asset'))
+            cs[0].d.get('recv') in (('sub', A(A('self', 'pos_handler'), 'positions'), V('asset')),)
         ctx.require(ok, 'C02.S5', 'an accepted mark of a held asset updates that position with the given price [%s]' % cond_str(p),
                     cs[0].site if cs else ctx.fn(qn).site(), 'calls: %s' % [str(e) for e in cs], key='C02.S5|mark')
         extra = [fmt(c) for c, v, _ in p.conds if fmt(c) not in ('asset in self.pos_handler.positions', '0 <= current_price', 'current_price < 0',
@@ -284,7 +273,7 @@ def mark_loop(ctx, rule):
     """SimulatedBroker.update marks every held asset of every portfolio at the mid price of the update time (shared with C14)."""
     qn = 'SimulatedBroker.update'
     fn = ctx.fn(qn)
-    ps = summarise(ctx, qn, policy=no_inline)
+    ps = summarise(ctx, qn, policy=lambda a, b, d: default_policy(a, b, d) and b.qn != 'SimulatedBroker._execute_order')
     for p in normal(ps):
         marks = []
 
